@@ -102,6 +102,26 @@ func (st *State) onLockAcquired(fr *Frame, m Val, id, mode string, pos token.Pos
 		e.assumeUsed("monitor rule (M1): lock invariants assumed at Lock and proved at Unlock hold whenever the mutex is free, in every interleaving")
 	}
 	self := Val{T: types.NewPointer(p.RootT), C: []string{p.Root}}
+	// token linearity: a key whose token this thread holds is still in the token map, with this thread's object
+	stt2 := p.RootT.Underlying().(*types.Struct)
+	for _, tf := range c.TokenMaps {
+		idx, f := findField(stt2, tf)
+		if idx < 0 {
+			continue
+		}
+		mt, ok := f.Type().Underlying().(*types.Map)
+		if !ok {
+			continue
+		}
+		tn := e.P.relType(p.RootT)
+		mref := sel(st.arr(heapName(e, p.RootT, "."+tf), arrSort(SInt)), p.Root)
+		for _, t := range st.tokens {
+			if t.typ != tn+"."+tf || t.obj == "" {
+				continue
+			}
+			st.assume(and(st.mapHas(mt, mref, t.key), eq(st.mapGet(mt, mref, t.key).C[0], t.obj)))
+		}
+	}
 	for _, inv := range c.LockInvs[mf] {
 		sc := &SpecCtx{st: st, vars: map[string]Val{"self": self}, old: fr.old, where: "lockinv " + c.Name}
 		st.assume(e.evalClause(sc, inv))
